@@ -245,6 +245,28 @@ pub fn run_session(sess: &J, out: &mut TraceOut) -> Result<(), String> {
         let slot = st["slot"].as_u64().unwrap_or(0) as usize;
         let text = st["text"].as_str().ok_or("text")?;
         let (res, outs, msg) = run_text(&mut slots[slot], text);
+        if !st["raw"].is_null() {
+            // large-database sessions: outcome always, raw dump only where asked for
+            let mut ev = json!({"e": "rawcmd", "i": i, "c": st["c"], "text": text, "res": res, "msg": msg});
+            if !st["expect"].is_null() {
+                ev["expect"] = st["expect"].clone();
+            }
+            if st["raw"].as_str() == Some("dump") {
+                match catch_unwind(AssertUnwindSafe(|| dump(&slots[slot], &tables))) {
+                    Ok(Ok((tabs, canon, cont))) => {
+                        ev["tabs"] = tabs;
+                        ev["canon"] = canon;
+                        ev["cont"] = cont;
+                    }
+                    _ => {
+                        out.emit(json!({"e": "abort", "i": i, "c": st["c"], "text": text, "res": res, "slot": slot, "why": "dump failed"}));
+                        return Ok(());
+                    }
+                }
+            }
+            out.emit(ev);
+            continue;
+        }
         let d = catch_unwind(AssertUnwindSafe(|| dump(&slots[slot], &tables)));
         let (tabs, canon, cont) = match d {
             Ok(Ok(x)) => x,
